@@ -141,12 +141,12 @@ Proof. exact insert_append_spec. Qed.
 
 (* ---- non-vacuity: a map with a repeated key, a binary key, a forged te / grpc-status and a
    user grpc-encoding, sent by a client configured for gzip ---- *)
-Definition ex_md : metadata :=
-  [ (bytes_of_string "x-a", [49]); (bytes_of_string "te", [120]);
-    (bytes_of_string "x-p-bin", enc false [0; 255; 7]); (bytes_of_string "x-a", [50]);
-    (bytes_of_string "grpc-status", [48]); (bytes_of_string "grpc-encoding", [122]) ].
 
 Example c08_example_client :
+  let ex_md : metadata :=
+  [ (bytes_of_string "x-a", [49]); (bytes_of_string "te", [120]);
+    (bytes_of_string "x-p-bin", enc false [0; 255; 7]); (bytes_of_string "x-a", [50]);
+    (bytes_of_string "grpc-status", [48]); (bytes_of_string "grpc-encoding", [122]) ] in
   let h := client_request_headers (Some (bytes_of_string "gzip")) None ex_md in
   hm_get_all h (bytes_of_string "x-a") = [[49]; [50]] /\
   hm_get_all h (bytes_of_string "te") = [val_trailers] /\
@@ -157,6 +157,10 @@ Example c08_example_client :
 Proof. vm_compute. repeat split; reflexivity. Qed.
 
 Example c08_example_status_premises :
+  let ex_md : metadata :=
+  [ (bytes_of_string "x-a", [49]); (bytes_of_string "te", [120]);
+    (bytes_of_string "x-p-bin", enc false [0; 255; 7]); (bytes_of_string "x-a", [50]);
+    (bytes_of_string "grpc-status", [48]); (bytes_of_string "grpc-encoding", [122]) ] in
   let st := mkStatus 7 [110; 111] [1; 2] ex_md in
   well_formed st /\ is_reserved (bytes_of_string "x-a") = false /\ is_reserved (bytes_of_string "te") = true.
 Proof. repeat split; reflexivity. Qed.
